@@ -7,7 +7,16 @@ Decided (necessary conditions visible in the shape of the two generators):
   R2  merge_generators: a value taken from a finished source task is collected and yielded without a conditional
       skip, the collection is fresh per round, and a stored source exception is re-raised after the cleanup.
   R3  the flush sorts the whole buffer by the caller's key, yields every buffered element, resets the buffer only
-      afterwards, and every non-sentinel item of the merged stream is either buffered or yielded.
+      afterwards, and every non-sentinel item of the merged stream is either buffered or yielded.  The burst buffer is the
+      local list that is both filled (append / insert / insort / heappush) and ordered (sort / sorted / insort / heappush),
+      so a buffer kept ordered incrementally is bound too.  Every operation that orders it must compare *keys only*: the
+      components of two buffered elements that the operation compares are derived from the shape of the inserted element
+      and the operation's `key=`; the first one must be the caller's key of the item, and the item itself may be reached
+      only behind a component that never ties (an arrival counter).  `sort(key=key)`, `sorted(.., key=key)`,
+      `insort(.., key=key)`, `(key(x), next(counter), x)` pass; ordering `(key(x), x)` pairs does not -- equal keys make
+      the comparison fall through to the items (TypeError inside the generator for non-orderable items: the burst and
+      everything after it is lost; otherwise ties leave arrival order).  A buffer walked without a sort must be filled by
+      insort only (a heap must be popped), and the flush must yield the item component of each element.
   R4  merge_generators, ownership of the pending-task table (the dict that holds one `anext` task per source): inside the
       round loop an entry leaves the table only (a) by a keyed removal whose key is derived from this round's
       `asyncio.wait` result (directly, or through the list the fetched values were collected in), or (b) by a removal
@@ -36,9 +45,16 @@ EXPLANATION = (
     "assigned only in the flush branch.  A guard that reads state another task writes (e.g. `debouncer.is_complete`, set by "
     "Debouncer._loop before the sentinel travels through merge_generators) is not such a fact: an item that arrives in that "
     "window is yielded before the sorted burst.  "
-    "R3: the flush loop iterates exactly the buffer (or sorted(buffer,…)), yields its loop variable on every iteration, the sort "
+    "R3: the flush loop iterates exactly the buffer (or sorted(buffer,…), or pops a heap until it is empty), yields the item of its element on every iteration, the sort "
     "uses the caller's `key` and no reverse, a reset of the buffer is reachable only through the completed flush loop, and every "
-    "path through the body of the merged-stream loop appends, yields or flushes.  "
+    "path through the body of the merged-stream loop appends, yields or flushes.  The buffer is bound as the local list that is both filled and ordered, also when it is "
+    "kept ordered incrementally (bisect.insort / heapq).  Every ordering operation (sort, sorted, insort, heappush) must compare keys only: from the shape of the inserted "
+    "element (the item, or a tuple whose components are classified as caller's key of the item / the item / an arrival counter that never ties / constant) and the "
+    "operation's `key=` the sequence of compared components is derived; it must start with the caller's key, and the item may follow only behind a never-tying counter "
+    "(`next(itertools.count())`, `len(buffer)`, a local int incremented between any two insertions).  `(key(x), x)` pairs ordered by tuple comparison are a violation: "
+    "with equal keys the items are compared (TypeError inside the generator for non-orderable items loses the burst and all later items; orderable items lose arrival order "
+    "among ties); a keyed insort_left reverses ties.  A buffer that is walked without a sort must be filled by insort only, a heap must be popped, and the flush must yield "
+    "the item component of the buffered tuples.  "
     "R2: in merge_generators every normal path from `task.result()` reaches an append/yield of that value; the collecting list is "
     "re-created before the appends of each round, is iterated by a loop that yields on every iteration, and every path from an "
     "append to the function exit or the next round passes that loop (paths that exist only under an opt-in keyword parameter "
@@ -173,22 +189,249 @@ def _lines(path: list[Node]) -> list[str]:
 # ------------------------------------------------------------------------------------------- R1 + R3
 
 
+_APPEND = ("append", "extend", "insert")
+_INSORT = ("insort", "insort_right", "insort_left")
+_HEAP = ("heappush", "heappop")
+_FILL_ROLES = ("append", "insort", "insort_left", "heappush")
+_ORDER_ROLES = ("sort", "sorted", "insort", "insort_left", "heappush")
+
+
+def _buf_role(c: ast.Call) -> tuple[str, str] | None:
+    """(list local, role) for a call that fills or orders a local list: `L.append/extend/insert(..)` -> append, `L.sort(..)` -> sort,
+    `sorted(L, ..)` -> sorted, `[bisect.]insort[_right|_left](L, x, ..)` -> insort / insort_left, `[heapq.]heappush(L, x)` /
+    `heappop(L)` -> heappush / heappop.  insort and heappush both insert and order (the list is kept ordered incrementally)."""
+    if isinstance(c.func, ast.Attribute) and isinstance(c.func.value, ast.Name):
+        if c.func.attr in _APPEND:
+            return c.func.value.id, "append"
+        if c.func.attr == "sort":
+            return c.func.value.id, "sort"
+    nm = last(call_name(c))
+    if not (c.args and isinstance(c.args[0], ast.Name)):
+        return None
+    if call_name(c) == "sorted":
+        return c.args[0].id, "sorted"
+    if nm in _INSORT:
+        return c.args[0].id, ("insort_left" if nm == "insort_left" else "insort")
+    if nm in _HEAP:
+        return c.args[0].id, nm
+    return None
+
+
+def _inserted(c: ast.Call, role: str) -> ast.AST | None:
+    """The element a fill call puts into the list (None: several at once, shape unknown)."""
+    if role == "append":
+        if c.func.attr == "append" and len(c.args) == 1:
+            return c.args[0]
+        if c.func.attr == "insert" and len(c.args) == 2:
+            return c.args[1]
+        return None
+    return c.args[1] if len(c.args) >= 2 else None
+
+
 def _bind_buffer(fn: ast.AST) -> str:
-    appended, sorted_ = set(), set()
+    filled, ordered = set(), set()
     for c in walk_shallow(fn):
         if not isinstance(c, ast.Call):
             continue
-        if isinstance(c.func, ast.Attribute) and isinstance(c.func.value, ast.Name):
-            if c.func.attr in ("append", "extend", "insert"):
-                appended.add(c.func.value.id)
-            if c.func.attr == "sort":
-                sorted_.add(c.func.value.id)
-        if call_name(c) == "sorted" and c.args and isinstance(c.args[0], ast.Name):
-            sorted_.add(c.args[0].id)
-    cands = sorted(appended & sorted_)
+        br = _buf_role(c)
+        if br is None:
+            continue
+        if br[1] in _FILL_ROLES:
+            filled.add(br[0])
+        if br[1] in _ORDER_ROLES:
+            ordered.add(br[0])
+    cands = sorted(filled & ordered)
     if len(cands) != 1:
-        raise AnchorError(f"C29: cannot bind the burst buffer of debounced_sorted_prefix (locals both appended to and sorted: {cands})")
+        raise AnchorError(f"C29: cannot bind the burst buffer of debounced_sorted_prefix (locals both filled (append/insort/heappush) and ordered "
+                          f"(sort/sorted/insort/heappush): {cands})")
     return cands[0]
+
+
+def _strip_cast(e: ast.AST) -> ast.AST:
+    while isinstance(e, ast.Call) and last(call_name(e)) == "cast" and len(e.args) == 2:
+        e = e.args[1]
+    return e
+
+
+def _element_shape(fn: ast.AST, cfg: CFG, buf: str, fills: list, item_names: set[str], key_params: set[str], merged_loops: list) -> dict:
+    """What one element of the buffer is: the stream item itself (`tuple` False) or a tuple built at the insertion, whose components
+    are classified as `key` (the caller's key applied to the item), `item`, `tie` (a value that is different for every insertion and
+    grows with arrival: `next(<itertools.count()>)`, `len(<buffer>)`, a local int incremented between any two insertions), `const`,
+    or `other:<text>`."""
+    fill_nodes = [n for c, _r in fills for n in cfg.node_of_containing(c)]
+
+    def is_item(e: ast.AST) -> bool:
+        e = _strip_cast(e)
+        return isinstance(e, ast.Name) and e.id in item_names
+
+    def outside_stream_loop(s: ast.AST) -> bool:
+        return not any(_inside(s, l) for l in merged_loops)
+
+    def tie(e: ast.AST, at_nodes: list[Node]) -> bool:
+        if isinstance(e, ast.Call) and call_name(e) == "next" and len(e.args) == 1 and isinstance(e.args[0], ast.Name):
+            binds = _name_assignments(fn, e.args[0].id)
+            return (len(binds) == 1 and isinstance(binds[0], (ast.Assign, ast.AnnAssign)) and isinstance(binds[0].value, ast.Call)
+                    and last(call_name(binds[0].value)) == "count" and outside_stream_loop(binds[0]))
+        if isinstance(e, ast.Call) and call_name(e) == "len" and len(e.args) == 1 and dotted(e.args[0]) == buf:
+            return True  # the buffer only grows until the flush (R3 buffer-reset)
+        if isinstance(e, ast.Name):
+            binds = _name_assignments(fn, e.id)
+            incs = [s for s in binds if isinstance(s, ast.AugAssign) and isinstance(s.op, ast.Add) and isinstance(s.target, ast.Name)
+                    and isinstance(s.value, ast.Constant) and isinstance(s.value.value, int) and not isinstance(s.value.value, bool) and s.value.value > 0]
+            inits = [s for s in binds if s not in incs]
+            if not incs or not all(isinstance(s, (ast.Assign, ast.AnnAssign)) and isinstance(s.value, ast.Constant) and isinstance(s.value.value, int)
+                                   and outside_stream_loop(s) for s in inits):
+                return False
+            inc_nodes = [n for s in incs for n in cfg.nodes_of(s)]
+            return not cfg.must_pass(at_nodes, fill_nodes, inc_nodes, include_starts=False)
+        return False
+
+    def classify(e: ast.AST, at: ast.AST, at_nodes: list[Node]) -> str:
+        if tie(e, at_nodes):
+            return "tie"
+        ex = _strip_cast(expand(e, at))
+        if isinstance(ex, ast.Constant):
+            return "const"
+        if is_item(ex):
+            return "item"
+        if isinstance(ex, ast.Call) and isinstance(ex.func, ast.Name) and ex.func.id in key_params and len(ex.args) == 1 and not ex.keywords and is_item(ex.args[0]):
+            return "key"
+        return "other:" + ast.unparse(e)[:60]
+
+    shapes: list[dict] = []
+    for c, role in fills:
+        e = _inserted(c, role)
+        at = c
+        tup = None
+        if e is not None:
+            tup = e if isinstance(e, ast.Tuple) else (expand(e, at, depth=1) if isinstance(e, ast.Name) else None)
+        if isinstance(tup, ast.Tuple):
+            kinds = [classify(x, at, cfg.node_of_containing(c)) for x in tup.elts]
+            if kinds.count("item") != 1:
+                raise AnchorError(f"C29.R3: `{ast.unparse(c)[:80]}` buffers tuples `{ast.unparse(tup)[:60]}` that do not carry the stream item exactly once (components: {kinds})")
+            shapes.append({"tuple": True, "kinds": kinds, "item": kinds.index("item"), "text": ast.unparse(tup)[:60]})
+        else:
+            shapes.append({"tuple": False, "kinds": ["item"], "item": 0, "text": ast.unparse(e)[:60] if e is not None else "<items>"})
+    if not shapes:
+        raise AnchorError("C29.R3: no insertion into the burst buffer found")
+    if any(sh["tuple"] != shapes[0]["tuple"] or sh["kinds"] != shapes[0]["kinds"] for sh in shapes[1:]):
+        raise AnchorError(f"C29.R3: the insertions into `{buf}` do not agree on the shape of an element: {[sh['text'] for sh in shapes]}")
+    return shapes[0]
+
+
+def _int_const(e: ast.AST) -> int | None:
+    """Value of an integer literal, `-1` (a UnaryOp in the AST) included."""
+    if isinstance(e, ast.UnaryOp) and isinstance(e.op, ast.USub):
+        v = _int_const(e.operand)
+        return None if v is None else -v
+    if isinstance(e, ast.Constant) and isinstance(e.value, int) and not isinstance(e.value, bool):
+        return e.value
+    return None
+
+
+def _projection(kv: ast.AST) -> list[int] | None:
+    """Indices selected by `lambda p: p[i]` / `lambda p: (p[i], p[j])` / `itemgetter(i, j)`."""
+    def idx(e: ast.AST, arg: str) -> int | None:
+        if isinstance(e, ast.Subscript) and isinstance(e.value, ast.Name) and e.value.id == arg:
+            return _int_const(e.slice)
+        return None
+    if isinstance(kv, ast.Lambda) and len(kv.args.args) == 1 and not (kv.args.kwonlyargs or kv.args.vararg or kv.args.kwarg):
+        a = kv.args.args[0].arg
+        parts = kv.body.elts if isinstance(kv.body, ast.Tuple) else [kv.body]
+        got = [idx(x, a) for x in parts]
+        return None if any(g is None for g in got) else got  # type: ignore[return-value]
+    if isinstance(kv, ast.Call) and last(call_name(kv)) == "itemgetter" and kv.args and all(_int_const(x) is not None for x in kv.args):
+        return [_int_const(x) for x in kv.args]  # type: ignore[misc]
+    return None
+
+
+def _order_verdict(c: ast.Call, role: str, shape: dict, key_params: set[str]) -> tuple[bool, str, str]:
+    """Which components of two buffered elements an ordering operation compares, in which order; verdict on "by the caller's key only"."""
+    kv = next((k.value for k in c.keywords if k.arg == "key"), None)
+    rev = next((k.value for k in c.keywords if k.arg == "reverse"), None)
+    comps = shape["kinds"]
+    n = len(comps)
+    if kv is None:
+        compared = list(comps)
+    elif isinstance(kv, ast.Name) and kv.id in key_params:
+        compared = ["key"] if not shape["tuple"] else [f"other:{kv.id}(<whole tuple>)"]
+    else:
+        proj = _projection(kv)
+        if proj is not None and shape["tuple"] and all(-n <= i < n for i in proj):
+            compared = [comps[i] for i in proj]
+        elif (not shape["tuple"] and isinstance(kv, ast.Lambda) and len(kv.args.args) == 1 and isinstance(kv.body, ast.Call) and isinstance(kv.body.func, ast.Name)
+              and kv.body.func.id in key_params and len(kv.body.args) == 1 and isinstance(kv.body.args[0], ast.Name) and kv.body.args[0].id == kv.args.args[0].arg):
+            compared = ["key"]
+        else:
+            compared = ["other:" + ast.unparse(kv)[:50]]
+    seq = [k for k in compared if k != "const"]
+    txt = ast.unparse(c)[:80]
+    descending = rev is not None and not (isinstance(rev, ast.Constant) and not rev.value)
+    if descending or not seq or seq[0] != "key":
+        return False, "not-by-key", f"sort call `{txt}` does not sort ascending by the caller's key function {sorted(key_params)}"
+    for k in seq[1:]:
+        if k == "tie":
+            return True, "", ""
+        if k == "item":
+            return False, "items-compared", (
+                f"`{txt}` orders `{shape['text']}` tuples by plain tuple comparison: whenever two burst items have equal keys the comparison falls through to the items "
+                "themselves.  Items that are not orderable (dicts, models, dataclasses) raise TypeError inside the generator -- the whole buffered burst and every later item "
+                "are never delivered; orderable items come out ordered by item value among ties instead of in arrival order.  Compare keys only (sort / sorted / insort with the "
+                "caller's function as their `key` argument) or put an arrival counter between the key and the item")
+        if k.startswith("other:"):
+            raise AnchorError(f"C29.R3: `{k[6:]}` takes part in the ordering done by `{txt}` and is neither the caller's key, the item, a constant nor a recognised arrival counter")
+    if role == "insort_left":
+        return False, "ties-reversed", f"`{txt}` inserts a new item before the buffered items with an equal key: ties are flushed in reverse arrival order"
+    if role == "heappush":
+        return False, "ties-unordered", f"`{txt}`: a heap is not stable, items with equal keys are flushed in no particular order"
+    return True, "", ""
+
+
+def _yields_item(y: ast.Yield, fl: ast.AST, buf: str, item_pos: int | None, width: int) -> bool:
+    """Does this yield inside flush loop ``fl`` hand out the item of the element the iteration is about?"""
+    v = y.value
+    if v is None:
+        return False
+
+    def hit(i: int, n: int | None = None) -> bool:
+        return item_pos is not None and i in (item_pos, item_pos - width) and (n is None or n == width)
+
+    tgt = None if isinstance(fl, ast.While) else fl.target
+    if tgt is not None and item_pos is None:
+        return isinstance(v, ast.Name) and v.id in {x.id for x in ast.walk(tgt) if isinstance(x, ast.Name)}
+
+    def resolve(e: ast.AST, depth: int = 3):
+        """("whole",) = the element of this iteration, ("idx", k, n|None) = its component k (of an n-tuple pattern)."""
+        if tgt is None and isinstance(e, ast.Call) and last(call_name(e)) == "heappop" and e.args and dotted(e.args[0]) == buf:
+            return ("whole",)
+        if isinstance(e, ast.Name) and tgt is not None:
+            if isinstance(tgt, ast.Name) and tgt.id == e.id:
+                return ("whole",)
+            if isinstance(tgt, (ast.Tuple, ast.List)):
+                for k, el in enumerate(tgt.elts):
+                    if isinstance(el, ast.Name) and el.id == e.id:
+                        return ("idx", k, len(tgt.elts))
+        if isinstance(e, ast.Subscript) and _int_const(e.slice) is not None:
+            return ("idx", _int_const(e.slice), None) if resolve(e.value, depth) == ("whole",) else None
+        if isinstance(e, ast.Name) and depth > 0:
+            for s in ast.walk(fl):
+                if not (isinstance(s, ast.Assign) and len(s.targets) == 1):
+                    continue
+                t = s.targets[0]
+                if isinstance(t, ast.Name) and t.id == e.id:
+                    return resolve(s.value, depth - 1)
+                if isinstance(t, (ast.Tuple, ast.List)) and resolve(s.value, depth - 1) == ("whole",):
+                    for k, el in enumerate(t.elts):
+                        if isinstance(el, ast.Name) and el.id == e.id:
+                            return ("idx", k, len(t.elts))
+        return None
+
+    r = resolve(v)
+    if r is None:
+        return False
+    if item_pos is None:
+        return r == ("whole",)
+    return r[0] == "idx" and hit(r[1], r[2])
 
 
 def _flag_status(fn: ast.AST, cfg: CFG, name: str, want: bool, flush_nodes: list[Node], ynode: Node, loop_heads: list[Node]) -> tuple[bool, str, str]:
@@ -234,21 +477,25 @@ def _r1_r3(chk, m, fn) -> None:
     loop_heads = [n for s in merged_loops for n in cfg.nodes_of(s)]
     item_names = {x.id for s in merged_loops for x in ast.walk(s.target) if isinstance(x, ast.Name)}
 
-    # flush: the sort of the buffer, the loop that yields it
-    sort_calls = []
-    for c in walk_shallow(fn):
-        if isinstance(c, ast.Call):
-            if isinstance(c.func, ast.Attribute) and c.func.attr == "sort" and dotted(c.func.value) == buf:
-                sort_calls.append(c)
-            elif call_name(c) == "sorted" and c.args and dotted(c.args[0]) == buf:
-                sort_calls.append(c)
-    flush_nodes = [n for c in sort_calls for n in cfg.node_of_containing(c)]
-    if not flush_nodes:
-        raise AnchorError("C29: sort of the burst buffer not found on the CFG")
-    flush_loops = [s for s in walk_shallow(fn) if isinstance(s, (ast.For, ast.AsyncFor)) and s not in merged_loops
-                   and any(isinstance(x, ast.Name) and x.id == buf for e in (s.iter, expand(s.iter, s, depth=1)) for x in ast.walk(e))
+    # flush: the sort of the buffer (or the insertions that keep it ordered), the loop that yields it
+    ops = [(c, _buf_role(c)[1]) for c in walk_shallow(fn) if isinstance(c, ast.Call) and (_buf_role(c) or ("", ""))[0] == buf]
+    sort_calls = [c for c, r in ops if r in ("sort", "sorted")]
+    fills = [(c, r) for c, r in ops if r in _FILL_ROLES]
+    pops = [c for c, r in ops if r == "heappop"]
+    sort_nodes = [n for c in sort_calls for n in cfg.node_of_containing(c)]
+
+    def _drains(s: ast.AST) -> bool:  # `while <buf>: ... heappop(<buf>) ... yield ...`
+        return isinstance(s, ast.While) and any(isinstance(x, ast.Name) and x.id == buf for x in ast.walk(s.test)) and any(_inside(c, s) for c in pops)
+
+    flush_loops = [s for s in walk_shallow(fn) if s not in merged_loops
+                   and ((isinstance(s, (ast.For, ast.AsyncFor)) and any(isinstance(x, ast.Name) and x.id == buf for e in (s.iter, expand(s.iter, s, depth=1)) for x in ast.walk(e)))
+                        or _drains(s))
                    and any(isinstance(x, ast.Yield) for b in s.body for x in ast.walk(b))]
     chk.floor("C29.R3", "flush loops (iterate the buffer and yield)", len(flush_loops), 1)
+    # "the flush" for the typestate rule R1: the sort where there is one, else (buffer kept ordered while it is filled) the head of the flush loop
+    flush_nodes = sort_nodes or [n for fl in flush_loops for n in cfg.nodes_of(fl)]
+    if not flush_nodes:
+        raise AnchorError("C29: flush of the burst buffer not found on the CFG")
 
     ynodes = _yield_nodes(cfg)
     passthrough = [(n, y) for n, y in ynodes if not any(_inside(y, fl) for fl in flush_loops)]
@@ -310,37 +557,57 @@ def _r1_r3(chk, m, fn) -> None:
     key_params = {p.arg for p in fn.args.kwonlyargs + fn.args.args if "Callable" in (ast.unparse(p.annotation) if p.annotation is not None else "") or p.arg == "key"}
     if not key_params:
         raise AnchorError("C29.R3: debounced_sorted_prefix has no key-function parameter")
-    for c in sort_calls:
-        kv = next((k.value for k in c.keywords if k.arg == "key"), None)
-        rev = next((k.value for k in c.keywords if k.arg == "reverse"), None)
-        ok = isinstance(kv, ast.Name) and kv.id in key_params and (rev is None or (isinstance(rev, ast.Constant) and not rev.value))
-        chk.ob("C29.R3", "the burst is sorted ascending by the caller's key", ok, m=m, node=c, fn=fn, instance="sort-key",
-               reason=f"sort call `{ast.unparse(c)[:80]}` does not sort ascending by the caller's key function {sorted(key_params)}")
+    shape = _element_shape(fn, cfg, buf, fills, item_names, key_params, merged_loops)
+    order_ops = [(c, r) for c, r in ops if r in _ORDER_ROLES]
+    chk.floor("C29.R3", "operations that order the burst buffer (sort / sorted / insort / heappush)", len(order_ops), 1)
+    for c, role in order_ops:
+        ok, mode, reason = _order_verdict(c, role, shape, key_params)
+        slot = "sort-key" if role in ("sort", "sorted") else "insert-order"
+        chk.ob("C29.R3", "the burst is ordered ascending by the caller's key and by nothing else: the ordering operation compares keys only, so that items with equal keys "
+               "are never compared with each other (ties stay in arrival order, non-orderable items cannot raise inside the generator)", ok, m=m, node=c, fn=fn,
+               instance=slot if ok or mode == "not-by-key" else f"{slot}:{mode}", reason=reason)
+    item_pos = shape["item"] if shape is not None and shape["tuple"] else None
+    width = len(shape["kinds"]) if item_pos is not None else 0
     for fl in flush_loops:
-        it = fl.iter
-        whole = (isinstance(it, ast.Name) and it.id == buf) or (isinstance(it, ast.Call) and call_name(it) == "sorted" and it.args and dotted(it.args[0]) == buf)
-        if not whole:
-            ex = expand(it, fl)
-            whole = (isinstance(ex, ast.Call) and call_name(ex) == "sorted" and ex.args and dotted(ex.args[0]) == buf)
+        drain = isinstance(fl, ast.While)
+        if drain:
+            whole = atoms(fl.test, True) == [(buf, True)]
+            what = fl.test
+        else:
+            it = what = fl.iter
+            whole = (isinstance(it, ast.Name) and it.id == buf) or (isinstance(it, ast.Call) and call_name(it) == "sorted" and it.args and dotted(it.args[0]) == buf)
+            if not whole:
+                ex = expand(it, fl)
+                whole = (isinstance(ex, ast.Call) and call_name(ex) == "sorted" and ex.args and dotted(ex.args[0]) == buf)
         chk.ob("C29.R3", "the flush loop iterates the whole buffer", bool(whole), m=m, node=fl, fn=fn, instance="flush-iter",
-               reason=f"flush iterates `{ast.unparse(it)[:60]}`, not the whole buffer")
+               reason=f"flush iterates `{ast.unparse(what)[:60]}`, not the whole buffer")
         heads = cfg.nodes_of(fl)
-        tgt_names = {x.id for x in ast.walk(fl.target) if isinstance(x, ast.Name)}
-        ys = [n for n, y in ynodes if _inside(y, fl) and isinstance(y.value, ast.Name) and y.value.id in tgt_names]
+        ys = [n for n, y in ynodes if _inside(y, fl) and _yields_item(y, fl, buf, item_pos, width)]
         for h in heads:
-            starts = [t for lab, t in cfg.succ[h] if lab == "loop"]
+            starts = [t for lab, t in cfg.succ[h] if lab in ("loop", "T")]
             skip = cfg.must_pass(starts, [h], ys, labels_excluded=NOEXC) if ys else [h]
             chk.ob("C29.R3", "every buffered element is yielded by the flush loop (no conditional skip)", not skip, m=m, node=fl, fn=fn,
-                   instance="flush-yield", reason="an iteration of the flush loop can complete without yielding its element")
-        # sort precedes the flush loop
+                   instance="flush-yield", reason="an iteration of the flush loop can complete without yielding its element"
+                   + (f" (buffered elements are {width}-tuples whose component {item_pos} is the item: that component must be yielded)" if item_pos is not None else ""))
+        # the loop sees the buffer in sorted order: sorted just before / in the header, or kept ordered by every insertion
         for h in heads:
-            inline = any(isinstance(x, ast.Call) and call_name(x) == "sorted" for x in ast.walk(fl.iter))
-            unsorted = [] if inline else cfg.must_pass([cfg.entry], [h], flush_nodes)
-            chk.ob("C29.R3", "the buffer is sorted before it is flushed", not unsorted, m=m, node=fl, fn=fn, instance="sort-before-flush",
-                   reason="the flush loop is reachable without passing the sort")
+            inline = not drain and any(isinstance(x, ast.Call) and call_name(x) == "sorted" for x in ast.walk(fl.iter))
+            why = "the flush loop is reachable without passing the sort"
+            if inline:
+                unsorted = False
+            elif sort_nodes:
+                unsorted = bool(cfg.must_pass([cfg.entry], [h], sort_nodes))
+            elif drain:
+                unsorted = not (fills and all(r == "heappush" for _c, r in fills))
+                why = f"the flush pops `{buf}` as a heap, but not every insertion is a heappush"
+            else:
+                roles = {r for _c, r in fills}
+                unsorted = not (roles and roles <= {"insort", "insort_left"})
+                why = (f"`{buf}` is filled with heappush (heap order is not sorted order) and walked without heappop or a sort" if "heappush" in roles
+                       else f"there is no sort before the flush and not every insertion into `{buf}` keeps it ordered ({sorted(roles)})")
+            chk.ob("C29.R3", "the buffer is sorted before it is flushed", not unsorted, m=m, node=fl, fn=fn, instance="sort-before-flush", reason=why)
     # resets of the buffer only after the completed flush loop
-    append_nodes = [n for n in cfg.nodes for c in _calls_in(n)
-                    if isinstance(c.func, ast.Attribute) and c.func.attr in ("append", "extend", "insert") and dotted(c.func.value) == buf]
+    append_nodes = [n for c, _r in fills for n in cfg.node_of_containing(c)]
     chk.floor("C29.R3", "buffering sites (append to the buffer)", len(append_nodes), 1)
     after_append = cfg.reach(append_nodes, include_starts=False)
     resets = []
@@ -358,7 +625,7 @@ def _r1_r3(chk, m, fn) -> None:
                 is_reset = True
         if is_reset and n in after_append:
             resets.append(n)
-    done_edges = [(h, "done") for fl in flush_loops for h in cfg.nodes_of(fl)]
+    done_edges = [(h, "F" if isinstance(fl, ast.While) else "done") for fl in flush_loops for h in cfg.nodes_of(fl)]
     for r in resets:
         early = r in cfg.reach([cfg.entry], blocked_edges=done_edges)
         chk.ob("C29.R3", "the buffer is reset only after the flush loop has yielded all of it", not early, m=m, node=r.ast, fn=fn,
@@ -775,6 +1042,39 @@ _BROKEN_RESET_FIRST = _FIXED.replace("            for buffered_item in buffer:\n
                                      "            pending, buffer = buffer, []\n            for buffered_item in buffer:\n                yield buffered_item\n")
 _BROKEN_DROP_NONE = _FIXED.replace("            if flushed:\n", "            if actual_item is None:\n                continue\n            if flushed:\n")
 
+# ---- ordering of the burst: which components of two buffered elements are compared
+_SORT_FLUSH = "            buffer.sort(key=key)\n            for buffered_item in buffer:\n"
+_APPEND_ITEM = "                buffer.append(actual_item)\n"
+
+
+def _ordered(insert: str, flush: str, pre: str = "") -> str:
+    return (pre + _FIXED).replace(_APPEND_ITEM, insert).replace(_SORT_FLUSH, flush)
+
+
+_WALK2 = "            for _, buffered_item in buffer:\n"
+_WALK3 = "            for _, _, buffered_item in buffer:\n"
+_SEED_INSORT_PAIRS = _ordered("                bisect.insort(buffer, (key(actual_item), actual_item))\n", _WALK2)
+_HEAP_PAIRS = _ordered("                heapq.heappush(buffer, (key(actual_item), actual_item))\n",
+                       "            while buffer:\n                _, buffered_item = heapq.heappop(buffer)\n")
+_DECORATED_SORT_PAIRS = _ordered("                buffer.append((key(actual_item), actual_item))\n", "            buffer.sort()\n" + _WALK2)
+_COUNTER_AFTER_ITEM = _ordered("                bisect.insort(buffer, (key(actual_item), actual_item, next(arrival)))\n",
+                               "            for _, buffered_item, _ in buffer:\n", pre="    arrival = itertools.count()\n")
+_CLOCK_TIEBREAK = _ordered("                entry = (key(actual_item), 0, actual_item)\n                bisect.insort(buffer, entry)\n", _WALK3)
+_FLUSH_YIELDS_KEY = _ordered("                bisect.insort(buffer, (key(actual_item), next(arrival), actual_item))\n",
+                             "            for buffered_item, _, _ in buffer:\n", pre="    arrival = itertools.count()\n")
+_INSORT_LEFT_KEYED = _ordered("                bisect.insort_left(buffer, actual_item, key=key)\n", "            for buffered_item in buffer:\n")
+_APPEND_BESIDE_INSORT = _ordered("                if len(buffer) < 2:\n                    buffer.append(actual_item)\n                else:\n"
+                                 "                    bisect.insort(buffer, actual_item, key=key)\n", "            for buffered_item in buffer:\n")
+_HEAP_WALKED = _ordered("                heapq.heappush(buffer, (key(actual_item), len(buffer), actual_item))\n", _WALK3)
+_OK_INSORT_COUNTER = _ordered("                bisect.insort(buffer, (key(actual_item), next(arrival), actual_item))\n", _WALK3, pre="    arrival = itertools.count()\n")
+_OK_INSORT_KEYED = _ordered("                bisect.insort(buffer, actual_item, key=key)\n", "            for buffered_item in buffer:\n")
+_OK_HEAP_LEN = _ordered("                heapq.heappush(buffer, (key(actual_item), len(buffer), actual_item))\n",
+                        "            while buffer:\n                buffered_item = heapq.heappop(buffer)[2]\n")
+_OK_INSORT_SEQ = _ordered("                seq += 1\n                pair = (key(actual_item), seq, actual_item)\n                bisect.insort(buffer, pair)\n",
+                          "            for entry in buffer:\n                buffered_item = entry[-1]\n", pre="    seq = 0\n")
+_OK_DECORATED_SORT = _ordered("                buffer.append((key(actual_item), len(buffer), actual_item))\n", "            buffer.sort()\n" + _WALK3)
+_OK_SORT_ITEMGETTER = _ordered("                buffer.append((key(actual_item), actual_item))\n", "            buffer.sort(key=lambda pair: pair[0])\n" + _WALK2)
+
 _REARM = "                if active_gen is not None:\n                    next_item_tasks[task_index] = asyncio.create_task(anext(active_gen))\n"
 _PRUNE_REBIND = ("            next_item_tasks = {\n                index: task\n                for index, task in next_item_tasks.items()\n"
                  "                if not task.done()\n            }\n")
@@ -823,6 +1123,22 @@ TWINS = [
     Twin("falsy items dropped", _P, _BODY_OLD, _BROKEN_DROP_NONE, "C29.R3"),
     Twin("benign: sorted() in the loop header", _P, "            buffer.sort(key=key)\n            for buffered_item in buffer:\n", "            for buffered_item in sorted(buffer, key=key):\n", None),
     Twin("benign: clear() instead of rebinding", _P, "            buffer = []\n", "            buffer.clear()\n", None),
+    # R3 — the ordering compares keys only (ties never reach the items)
+    Twin("seed form: burst kept ordered with insort on (key, item) pairs, flush walks the buffer", _P, _BODY_OLD, _SEED_INSORT_PAIRS, "C29.R3"),
+    Twin("variant: heap of (key, item) pairs drained with heappop", _P, _BODY_OLD, _HEAP_PAIRS, "C29.R3"),
+    Twin("variant: decorate-sort-undecorate with (key, item) pairs and an unkeyed sort", _P, _BODY_OLD, _DECORATED_SORT_PAIRS, "C29.R3"),
+    Twin("variant: arrival counter placed after the item", _P, _BODY_OLD, _COUNTER_AFTER_ITEM, "C29.R3"),
+    Twin("variant: constant where the tie-breaker should be", _P, _BODY_OLD, _CLOCK_TIEBREAK, "C29.R3"),
+    Twin("flush of (key, n, item) triples yields the key component", _P, _BODY_OLD, _FLUSH_YIELDS_KEY, "C29.R3"),
+    Twin("keyed insort_left: ties flushed in reverse arrival order", _P, _BODY_OLD, _INSORT_LEFT_KEYED, "C29.R3"),
+    Twin("first items appended, later ones bisected in: buffer not ordered at the flush", _P, _BODY_OLD, _APPEND_BESIDE_INSORT, "C29.R3"),
+    Twin("heap list walked in storage order", _P, _BODY_OLD, _HEAP_WALKED, "C29.R3"),
+    Twin("benign: insort on (key, next(arrival), item) triples", _P, _BODY_OLD, _OK_INSORT_COUNTER, None),
+    Twin("benign: insort(buffer, item, key=key)", _P, _BODY_OLD, _OK_INSORT_KEYED, None),
+    Twin("benign: heap of (key, len(buffer), item) drained with heappop", _P, _BODY_OLD, _OK_HEAP_LEN, None),
+    Twin("benign: insort on (key, seq, item) with a local counter incremented per insertion; flush indexes the triple", _P, _BODY_OLD, _OK_INSORT_SEQ, None),
+    Twin("benign: decorate-sort-undecorate with (key, len(buffer), item)", _P, _BODY_OLD, _OK_DECORATED_SORT, None),
+    Twin("benign: (key, item) pairs sorted with key=lambda pair: pair[0]", _P, _BODY_OLD, _OK_SORT_ITEMGETTER, None),
     # R2
     Twin("item of a finished task dropped when another source ended in the same round", _P,
          "                else:\n                    completed_results.append((task_index, value))\n",
